@@ -1268,6 +1268,34 @@ def nan_is_never_turned_into_a_number(ctx):
         raise AnchorMissing('clamp has no return', violation=f'{cl.qualname}:NaN handed through')
     nan_test = any(isinstance(n, ast.Compare) and len(n.ops) == 1 and isinstance(n.ops[0], ast.NotEq) and src(n.left) == src(n.comparators[0])
                    for n in body_walk(cl.node)) or any(call_attr(c) == 'isnan' for c in calls_in(cl.node))
+    # a clamp written with comparisons: walked with the value assumed to be NaN (every ordering comparison with it is false) -
+    # every return that is reached hands the value itself back
+    has_cmp = any(t_.kind == 'test' and any(isinstance(x, ast.Compare) and names_in(x) & vname for x in ast.walk(t_.ast))
+                  for t_ in _CFG(cl.node, m, cl.module).nodes)
+    if has_cmp and not any(isinstance(x, ast.Call) and dotted(x.func) == 'sorted' for x in ast.walk(cl.node)):
+        ccfg = _CFG(cl.node, m, cl.module)
+        seen, stack = set(), [ccfg.entry]
+        while stack:
+            nid = stack.pop()
+            if nid in seen:
+                continue
+            seen.add(nid)
+            node = ccfg.nodes[nid]
+            known = _eval_for_nan(node.ast, vname) if node.kind == 'test' else None
+            for b_, lab in ccfg.succ[nid]:
+                if (known is True and lab == 'F') or (known is False and lab == 'T') or lab == 'exc':
+                    continue
+                stack.append(b_)
+        for r in rets:
+            if not (set(ccfg.ids(r)) & seen):
+                continue
+            own = isinstance(r.value, ast.Name) and r.value.id in vname
+            cond_own = isinstance(r.value, ast.IfExp) and all(isinstance(x, ast.Name) and x.id in vname for x in (r.value.body, r.value.orelse))
+            ctx.check(own or cond_own, f'{cl.qualname}:NaN handed through', r, 'with NaN offered only `return <value>` is reached',
+                      f'`{src(r)}` is reached when every comparison with the value is false: clamp() turns a NaN into one of the limits; FloatRange.__call__ ends in '
+                      'clamp(-float_max, value, float_max) and validate then accepts the result - a NaN from the wire or from a driver becomes +-1.8e308 instead of '
+                      'a RangeError', cl)
+        rets = []
     for r in rets:
         v = r.value
         exprs = origins(v, cl.node) if isinstance(v, ast.Name) else [v]
